@@ -59,9 +59,11 @@ type hist struct {
 	maxOps      int
 	failingSeen bool
 	paths       map[string]bool
-	offered     [][]byte // all transactions offered so far at the current height
-	forced      []string // transaction kinds that the next height must contain (swap plan)
-	rootForced  []string // same for the next root-chain step
+	offered     [][]byte        // all transactions offered so far at the current height
+	xDissents   bool            // node X votes NO on the generated proposals (its approve list says approve=false)
+	proposals   map[string]bool // hashes of the generated governance proposals
+	forced      []string        // transaction kinds that the next height must contain (swap plan)
+	rootForced  []string        // same for the next root-chain step
 }
 
 func (h *hist) fatalf(format string, a ...any) {
@@ -79,7 +81,7 @@ func TestC03History(t *testing.T) {
 
 func runHistory(t *rapid.T, rec *ev.Rec, forceNestedEmptyDex bool) {
 	cs := rec.Case()
-	h := &hist{t: t, cs: cs, sim: nodesim.NewSim(), paths: map[string]bool{}}
+	h := &hist{t: t, cs: cs, sim: nodesim.NewSim(), paths: map[string]bool{}, proposals: map[string]bool{}}
 	defer h.sim.Close()
 	procs := rapid.SampledFrom([]int{1, 4, 16}).Draw(t, "GOMAXPROCS")
 	defer runtime.GOMAXPROCS(runtime.GOMAXPROCS(procs))
@@ -133,6 +135,11 @@ func runHistory(t *rapid.T, rec *ev.Rec, forceNestedEmptyDex bool) {
 			n.SetApproveList(true)
 		}
 		cs.Class("governance=approve-list")
+		// validators may vote differently: X can vote NO on every generated proposal; it then rejects proposals containing one
+		// and must still commit the block once the quorum certified it
+		if h.xDissents = rapid.SampledFrom([]bool{true, true, true, false}).Draw(t, "xDissents"); h.xDissents {
+			cs.Class("governance:X-votes-no")
+		}
 	} else {
 		cs.Class("governance=reject-all")
 	}
@@ -174,6 +181,9 @@ func runHistory(t *rapid.T, rec *ev.Rec, forceNestedEmptyDex bool) {
 			} else {
 				h.forced = []string{"create-order", "create-order", "create-order"}
 			}
+		}
+		if h.xDissents && (i == 1 || i == 3) {
+			h.forced = append(h.forced, "param-approved-valid") // a (valid) proposal X voted no on, early in the history
 		}
 		if swapPlan && i == lockAt {
 			h.forced = append(h.forced, "lock-orders")
@@ -304,8 +314,9 @@ func (h *hist) height(syncLockstep bool) bool {
 			for _, tx := range h.w.GenTx(t, ht, h.kinds) {
 				h.offered = append(h.offered, tx.Bytes)
 				if tx.Proposal {
+					h.proposals[crypto.HashString(tx.Bytes)] = true
 					for _, n := range append(append([]*nodesim.Node{}, h.g.Nodes...), h.s) {
-						if err := n.ApproveProposal(tx.Bytes, true); err != nil {
+						if err := n.ApproveProposal(tx.Bytes, !(n == X && h.xDissents)); err != nil {
 							h.fatalf("approve list: %v", err)
 						}
 					}
@@ -413,12 +424,36 @@ func (h *hist) height(syncLockstep bool) bool {
 		h.cs.Class("second-proposer")
 	}
 
+	// dissented: the block contains a governance proposal node X voted NO on
+	dissented := func(block []byte) bool {
+		if !h.xDissents {
+			return false
+		}
+		b := new(lib.Block)
+		if lib.Unmarshal(block, b) != nil {
+			return false
+		}
+		for _, tx := range b.Transactions {
+			if h.proposals[crypto.HashString(tx)] {
+				return true
+			}
+		}
+		return false
+	}
+	// speculate: a speculative validation of the OTHER proposal on node n (X may legitimately reject it when it voted no)
+	speculate := func(n *nodesim.Node) {
+		_, e := n.Validate(alt.RcBuildHeight, altQC)
+		if e != nil && !(n == X && dissented(alt.Block)) {
+			h.fatalf("VIOLATION C03/C11: %s rejects the (other) valid proposal of P: %v", n.Name, e)
+		}
+		if e != nil {
+			h.cs.Class("X-votes-no:failed-validation-before-the-certified-block")
+		}
+	}
 	validate := func(n *nodesim.Node, label string) {
 		if altQC != nil && h.t_int(0, 1, "spec:"+label) == 0 {
 			// a discarded speculative validation of a different proposal just before
-			if _, e := n.Validate(alt.RcBuildHeight, altQC); e != nil {
-				h.fatalf("VIOLATION C03/C11: %s rejects the (other) valid proposal of P: %v", n.Name, e)
-			}
+			speculate(n)
 			n.AbandonRound()
 			h.cs.Class("perturb:speculative-validate-discarded")
 		}
@@ -464,14 +499,19 @@ func (h *hist) height(syncLockstep bool) bool {
 		h.paths["restart"] = true
 		h.cs.Class("restart")
 	}
-	xValidates := h.t_int(0, 1, "xValidates") == 0
-	if xValidates {
+	xValidates := h.t_int(0, 1, "xValidates") == 0 || dissented(p.Block)
+	if xValidates && dissented(p.Block) {
+		// X voted no: it rejects the proposal (round interrupt) and later commits what the quorum certified by replay
+		if _, e := X.Validate(p.RcBuildHeight, qc); e == nil {
+			h.fatalf("VIOLATION C03: X validates a proposal containing a governance transaction it voted NO on")
+		}
+		h.cs.Class("X-votes-no:failed-validation-before-the-certified-block")
+		xValidates = false
+	} else if xValidates {
 		validate(X, "X-validate")
 	} else if altQC != nil && h.t_int(0, 1, "xSpec") == 0 {
 		// speculative validation, then the certified block arrives without a validation of its own
-		if _, e := X.Validate(alt.RcBuildHeight, altQC); e != nil {
-			h.fatalf("VIOLATION C03/C11: X rejects the (other) valid proposal of P: %v", e)
-		}
+		speculate(X)
 		if h.t_int(0, 1, "xAbandon") == 0 {
 			X.AbandonRound()
 		}
